@@ -146,18 +146,24 @@ def hs_classes(chk, events):
 def run_c20(chk):
     thorough = chk.tier == "thorough"
     rng = chk.rng
-    main_cfg = "MC_Handshake_full.cfg" if thorough else "MC_Handshake.cfg"
-    with concurrent.futures.ThreadPoolExecutor(2) as ex:
+    # thorough: the full model (<= 12 actions) is model-checked; sequences are exported from the
+    # 8-action model (the dump of the full one is too large to replay usefully)
+    main_cfg = "MC_Handshake_cover.cfg" if thorough else "MC_Handshake.cfg"
+    with concurrent.futures.ThreadPoolExecutor(3) as ex:
         fside = ex.submit(side_models, "Handshake", HS_SIDE)
-        r, hists = vlib.dump_hists("Handshake", main_cfg, workers=8, timeout=1100 if thorough else 280)
+        ffull = ex.submit(vlib.mc, "Handshake", "MC_Handshake_full.cfg", workers=8, timeout=1000) if thorough else None
+        r, hists = vlib.dump_hists("Handshake", main_cfg, workers=8, timeout=600 if thorough else 280)
         fside.result()
-    chk.add_model("Handshake design=>contract (2 claimed peers x (2 valid keys + invalid key) x powOK, cooldown 2, now<=4, %s)" % main_cfg, r,
-                  "invariants " + " ".join(HS_INV) + "; deviations CooldownSkipsChecks / InvalidKeyNoPenalty violate; 6 reach scenarios")
+        rfull = ffull.result() if ffull else None
+    note = "invariants " + " ".join(HS_INV) + "; deviations CooldownSkipsChecks / InvalidKeyNoPenalty violate; 6 reach scenarios"
+    chk.add_model("Handshake design=>contract (2 claimed peers x (2 valid keys + invalid key) x powOK, cooldown 2, now<=4, %s)" % main_cfg, r, note)
+    if rfull:
+        chk.add_model("same, <= 12 actions, reputation scale -6..2 (MC_Handshake_full.cfg)", rfull, note)
     scripts = hs_scripts(hists)
     log("[gen] %d TLC state-cover sequences" % len(scripts))
-    cover = rng.sample(scripts, min(len(scripts), 20000 if thorough else 1500))
-    ext = [lines + [a, b] for lines in rng.sample(scripts, min(len(scripts), 1500 if thorough else 50)) for a in HS_ACTS for b in rng.sample(HS_ACTS, 2)]
-    ev = run_script(chk, [("tlc-state-cover", cover), ("tlc-transition-cover", ext), ("random", hs_random(rng, 6000 if thorough else 400))], "HandshakeTrace")
+    cover = rng.sample(scripts, min(len(scripts), 8000 if thorough else 1500))
+    ext = [lines + [a, b] for lines in rng.sample(scripts, min(len(scripts), 400 if thorough else 50)) for a in HS_ACTS for b in rng.sample(HS_ACTS, 2)]
+    ev = run_script(chk, [("tlc-state-cover", cover), ("tlc-transition-cover", ext), ("random", hs_random(rng, 3000 if thorough else 400))], "HandshakeTrace")
     hs_classes(chk, ev)
     chk.assumptions += ["'valid PoW' = the nonce the node's own solver finds (peer Node::generate_handshake_work); 'invalid' = a nonce the node's own "
                         "verifier rejects at difficulty >= 8; the digest itself is C19's business",
@@ -282,11 +288,11 @@ def run_c21(chk):
     s24 = ann_scripts(rng, hists, 24)
     s30 = ann_scripts(rng, hists30, 30)
     log("[gen] %d + %d TLC state-cover sequences" % (len(s24), len(s30)))
-    nc = 20000 if thorough else 1000
+    nc = 5000 if thorough else 1000
     acts = lambda: [ann_cmd(rng, p, k) for p in (1, 2) for k in ["ok", rng.choice(PRE_KINDS), rng.choice(POST_KINDS)]] + ["adv ms=30000", "adv ms=1"]
-    ext = [lines + [a, ann_cmd(rng, 1, "ok"), ann_cmd(rng, 2, "ok")] for lines in rng.sample(s30, min(len(s30), 2000 if thorough else 80)) for a in acts()]
+    ext = [lines + [a, ann_cmd(rng, 1, "ok"), ann_cmd(rng, 2, "ok")] for lines in rng.sample(s30, min(len(s30), 500 if thorough else 80)) for a in acts()]
     ev = run_script(chk, [("tlc-state-cover(tick 24 s)", rng.sample(s24, min(len(s24), nc))), ("tlc-state-cover(tick 30 s)", rng.sample(s30, min(len(s30), nc))),
-                          ("tlc-transition-cover", ext), ("random", ann_random(rng, 5000 if thorough else 400))], "AnnounceTrace")
+                          ("tlc-transition-cover", ext), ("random", ann_random(rng, 2500 if thorough else 400))], "AnnounceTrace")
     ann_classes(chk, ev)
     chk.assumptions += ["'changes node state' = the projection (manifest_cache_ entries, DHT provider contacts, shard records, pending fetches; friend access) differs "
                         "before/after the call; every announce carries a unique endpoint and manifest tag so that an accepted announce is always visible",
